@@ -196,6 +196,13 @@ func (e InvalidRuleError) Error() string {
 }
 
 func (r Rule) Apply(facts *FactSet, newFacts *FactSet, syms *SymbolTable) error {
+	return r.apply(facts, newFacts, syms, false)
+}
+
+// apply generates the head instances of every combination of facts that matches the body and makes the
+// expressions true. A combination whose expressions cannot be evaluated ends the application with that
+// error, unless skipFailing is set: it is then left out like any other combination that is not true.
+func (r Rule) apply(facts *FactSet, newFacts *FactSet, syms *SymbolTable, skipFailing bool) error {
 	// extract all variables from the rule body
 	variables := make(MatchedVariables)
 	for _, predicate := range r.Body {
@@ -222,6 +229,9 @@ func (r Rule) Apply(facts *FactSet, newFacts *FactSet, syms *SymbolTable) error 
 
 	for res := range combinations {
 		if res.error != nil {
+			if skipFailing {
+				continue
+			}
 			return res.error
 		}
 
@@ -450,8 +460,10 @@ func (w *World) Query(pred Predicate) *FactSet {
 }
 
 func (w *World) QueryRule(rule Rule, syms *SymbolTable) *FactSet {
+	// a query has no way to report an error: the combinations it cannot evaluate are not part of the
+	// answer, and the answer does not depend on where in the list of facts they are met
 	newFacts := &FactSet{}
-	rule.Apply(w.facts, newFacts, syms)
+	rule.apply(w.facts, newFacts, syms, true)
 	return newFacts
 }
 
@@ -594,9 +606,12 @@ func combine(variables MatchedVariables, predicates []Predicate, expressions []E
 								error
 							}{complete_vars, err}:
 							case <-stop:
+								return
 							}
 
-							return
+							// the consumer decides whether this ends the enumeration
+							valid = false
+							break
 						}
 						if !res.Equal(Bool(true)) {
 							valid = false
